@@ -1,6 +1,6 @@
 SPECIFICATION FairSpec
-CONSTANT Bar = TRUE
-CONSTANT Pop = "diffflags"
+CONSTANT Bar = FALSE
+CONSTANT Pop = "same"
 INVARIANT TypeOK
 INVARIANT NoInterference
 PROPERTY Completes
